@@ -9,7 +9,7 @@ From SV Require Import KV.KvBase KV.KvLex KV.KvParse KV.KvSym KV.KvRoundtrip.
 From SV Require Import Fmt.VmfText Fmt.VmfTextProofs Fmt.VmfBlocks Fmt.VmfBlocksProofs Fmt.VmfFields Fmt.VmfFieldsProofs.
 From SV Require Import Fmt.VmfNum Fmt.VmfNumProofs Fmt.VmfGuard Fmt.VmfGuardProofs.
 From SV Require Import Fmt.VmfLite Fmt.VmfLiteProofs Fmt.VmfFlags Fmt.VmfFlagsProofs Fmt.VmfTok Fmt.VmfTokProofs Fmt.VmfPlane Fmt.VmfPlaneProofs.
-From SV Require Import Fmt.VmfIds Fmt.VmfIdsProofs Fmt.VmfTree Fmt.VmfTreeProofs Fmt.VmfSets Fmt.VmfSetsProofs Fmt.VmfViewport Fmt.VmfViewportProofs.
+From SV Require Import Fmt.VmfIds Fmt.VmfIdsProofs Fmt.VmfTree Fmt.VmfTreeProofs Fmt.VmfSets Fmt.VmfSetsProofs Fmt.VmfViewport Fmt.VmfViewportProofs Fmt.VmfWholeProofs.
 From SV Require Import Gen.VmfTemplates_gen Gen.VmfKeys_gen Gen.VmfDispSizes_gen Gen.VmfOrder_gen Gen.VmfProg_gen Gen.VmfFieldsCfg_gen Gen.VmfNumFmt_gen Gen.VmfLite_gen Gen.VmfFlags_gen.
 Import ListNotations.
 
@@ -396,3 +396,37 @@ Theorem c06_viewport_marker_as_coordinate_refuted : vp_read ex_tiers ex_inv (vp_
 Proof. exact vp_marker_as_coordinate_refuted. Qed.
 Example c06_viewport_example : vp_ok ex_tiers ex_tbl ex_inv = true /\ vp_read ex_tiers ex_inv (vp_write ex_tbl AY 0 5) = Some (AY, 0%Z, 5%Z).
 Proof. exact vp_example. Qed.
+
+(** 18. The property in one statement (round 4), with its hypotheses visible.  For ANY generated objects -- write programs
+    [progs], parser sites [P], object-level class table [ctbl], ID-manager classes / attributes / sites, membership loops,
+    viewport tables -- that pass the named Boolean obligations the check discharges in the kernel on every run for today's
+    vmf.py, and field codecs that invert (the per-field theorems of sections 1-13):
+    (text)   every export program's text parses into exactly the tree of keys, values and child blocks the writer was given;
+    (tree)   every well-formed object tree is given back by parse-after-export, and the second export equals the first;
+    (ids)    under preserve_ids every manager hands back every natural number, for each of the listed kinds of ID;
+    (sets)   membership lines do not depend on the iteration order of the set;
+    (views)  the planar axis and the two coordinates of a 2D viewport survive.
+    What connects (text) and (tree) -- that the blocks and lines of [export_t] are the blocks and lines of the write programs --
+    is the generated tables themselves (both are read from the same export methods; obligation
+    [tie:program_sites_match_template_sites]); it is not a theorem. *)
+Theorem c06_property :
+  forall nums progs (P : parsecfg) (ctbl : list liteclass) classes mans sites (kinds : list string) loops tiers vtbl vinv
+         (V T : Type) (dflt : V) (enc : lentry -> list V -> T) (dec : lentry -> T -> V),
+  table_ok nums progs = true -> pcfg_ok P = true ->
+  codecs_invert V T enc dec ctbl ->
+  (forall k, In k kinds -> kind_ok classes mans sites k = true) ->
+  member_loops_ok loops = true ->
+  vp_ok tiers vtbl vinv = true ->
+  (forall fuel fn e text kvs flag_on, env_ok nums e ->
+     run (fun_lookup progs) fuel (fun_lookup progs fn) [] e = Some (text, kvs) -> doc_names_ok kvs = true ->
+     parse_kv P vmf_E flag_on text = POk kvs)
+  /\ (forall x : otree V, wf V ctbl x ->
+        parse_t V T dflt dec ctbl (export_t V T dflt enc ctbl x) = x /\
+        export_t V T dflt enc ctbl (parse_t V T dflt dec ctbl (export_t V T dflt enc ctbl x)) = export_t V T dflt enc ctbl x)
+  /\ (forall k, In k kinds -> exists m p, In m mans /\ im_attr m = k /\ assoc_s (im_preserve m) classes = Some p /\
+        forall d o, (0 <= d)%Z -> id_get p o d = AKeep)
+  /\ (forall l, In l loops -> ml_sorted l = true) /\
+     (forall s1 s2 : list Z, NoDup s1 -> NoDup s2 -> same_set s1 s2 -> write_members true s1 = write_members true s2)
+  /\ (forall t1 r, tiers = t1 :: r -> forall a u v, in_tier t1 u = false -> in_tier t1 v = false ->
+        vp_read tiers vinv (vp_write vtbl a u v) = Some (a, u, v)).
+Proof. exact whole_property. Qed.
